@@ -174,12 +174,12 @@ fn resolve_entry<R: Reader<Offset = usize>>(
             }
             AttributeValue::DebugMacinfoRef(o) => {
                 if let Some(mut it) = call_q(ctx, "dwarf.macinfo", || ur.macinfo(*o)) {
-                    drain(ctx, "dwarf.macinfo.next", n, Fused::No, || it.next(), |ctx, m| log_macro_resolved(ctx, &m, ur));
+                    drain(ctx, "dwarf.macinfo.next", n, Fused::Yes, || it.next(), |ctx, m| log_macro_resolved(ctx, &m, ur));
                 }
             }
             AttributeValue::DebugMacroRef(o) => {
                 if let Some(mut it) = call_q(ctx, "dwarf.macros", || ur.macros(*o)) {
-                    drain(ctx, "dwarf.macros.next", n, Fused::No, || it.next(), |ctx, m| log_macro_resolved(ctx, &m, ur));
+                    drain(ctx, "dwarf.macros.next", n, Fused::Yes, || it.next(), |ctx, m| log_macro_resolved(ctx, &m, ur));
                 }
             }
             AttributeValue::UnitRef(o) => {
